@@ -129,7 +129,10 @@ def mk_coords(meta, tag):
     owners = {}
 
     def var(name, dims, values, attrs):
-        arr, owner = lay_out(np.asarray(values).astype(cd), cl)
+        values = np.asarray(values)
+        if np.dtype(cd).kind == "f":
+            values = values + 0.123456789        # not exactly representable: rounding / re-casting shows
+        arr, owner = lay_out(values.astype(cd), cl)
         owners[name] = owner
         return xr.Variable(dims, arr, attrs=attrs if cattrs else None)
 
@@ -186,6 +189,8 @@ def mk_raster(rng, dtype, layout, backend, kind="elev", nan=True, rname=None, in
         vals[rng.randrange(H), rng.randrange(W)] = np.nan
         if inf and rng.random() < 0.5:
             vals[rng.randrange(H), rng.randrange(W)] = rng.choice([np.inf, -np.inf])
+    elif np.dtype(dtype).kind == "f" and inf and kind == "elev" and rng.random() < 0.6:
+        vals[rng.randrange(H), rng.randrange(W)] = rng.choice([np.inf, -np.inf])      # +-inf without a NaN cell
     arr, owner = lay_out(vals, layout)
     data = arr
     if backend == "dask":
